@@ -27,6 +27,15 @@ type PureCycle struct {
 
 // RunPure runs the recomposed cycle.
 func RunPure(mode core.SynchronizationMode, portable bool, anc, alpha, beta *core.Entry, alphaPreserves, betaPreserves bool) *PureCycle {
+	return RunPureSyntax(mode, portable, false, anc, alpha, beta, alphaPreserves, betaPreserves)
+}
+
+// RunPureSyntax is RunPure with the ignore syntax: with Docker-style ignores
+// phantom directories are reified first (controller.go:1120-1126).
+func RunPureSyntax(mode core.SynchronizationMode, portable, docker bool, anc, alpha, beta *core.Entry, alphaPreserves, betaPreserves bool) *PureCycle {
+	if docker {
+		alpha, beta, _, _ = core.ReifyPhantomDirectories(anc, alpha, beta)
+	}
 	r := &PureCycle{AlphaContent: alpha, BetaContent: beta, NewAncestor: anc, AlphaAfter: alpha, BetaAfter: beta}
 	if portable {
 		if alphaPreserves && beta != nil && !betaPreserves {
